@@ -284,12 +284,13 @@ def interval(ctx, fn):
             ctx.prove(not k.sleeps, "nonblocking-never-sleeps")
 
 
-@harness("C07.proc_percent", quick=[dict(D=D, ncpu=n) for D in (0, 1, "1/1000") for n in (1, 4)] + [dict(D=1, ncpu=2, modes=m) for m in ("nbn", "bnn", "bbn", "nbb", "nfn", "bfn")] + [dict(D=1, ncpu=2, modes="nnn", threads=True)],
-         thorough=[dict(D=D, ncpu=n) for D in (0, 1, "1/1000", "7/2", 86400) for n in (1, 2, 4, 64)] + [dict(D=D, ncpu=n, modes=m) for D in (1, "1/1000") for n in (1, 4) for m in ("nbn", "bnn", "bbn", "nbb", "bnb", "bbb", "nfn", "bfn", "nfb", "nffn")])
-def proc_percent(ctx, D, ncpu, modes="nnn", threads=False):
+@harness("C07.proc_percent", quick=[dict(D=D, ncpu=n) for D in (0, 1, "1/1000") for n in (1, 4)] + [dict(D=1, ncpu=2, modes=m) for m in ("nbn", "bnn", "bbn", "nbb", "nfn", "bfn")] + [dict(D=1, ncpu=2, modes="nnn", threads=True)] + [dict(D=1, ncpu=2, modes=m, hotplug=True) for m in ("nnn", "nbn")],
+         thorough=[dict(D=D, ncpu=n, modes=m, hotplug=True) for D in (1, "1/1000") for n in (1, 4) for m in ("nnn", "nbn", "bnn", "nnnn")] + [dict(D=D, ncpu=n) for D in (0, 1, "1/1000", "7/2", 86400) for n in (1, 2, 4, 64)] + [dict(D=D, ncpu=n, modes=m) for D in (1, "1/1000") for n in (1, 4) for m in ("nbn", "bnn", "bbn", "nbb", "bnb", "bbb", "nfn", "bfn", "nfb", "nffn")])
+def proc_percent(ctx, D, ncpu, modes="nnn", threads=False, hotplug=False):
     """Process.cpu_percent() = 100 * (CPU seconds used) / (wall seconds elapsed) since the previous call on that object (whether
     that call was blocking or not); a blocking call measures its own interval; 0.0 on the first non-blocking call and when no wall
-    time elapsed.  modes: one letter per call, n = cpu_percent(None), b = cpu_percent(interval=D)."""
+    time elapsed.  modes: one letter per call, n = cpu_percent(None), b = cpu_percent(interval=D).  hotplug: the number of online
+    CPUs changes (to a symbolic other count) before one of the calls -- the statement's ratio does not mention the CPU count."""
     import fractions
 
     D = fractions.Fraction(D)
@@ -334,6 +335,8 @@ def proc_percent(ctx, D, ncpu, modes="nnn", threads=False):
         def get_ident():
             return _Thread.ident
 
+    plug_at = ctx.choice("cpus_change_before_call", list(range(1, len(modes)))) if hotplug else None
+    new_ncpu = ctx.choice("new_cpu_count", [1, 3, 8]) if hotplug else None
     with k.installed(extra=[(psutil, "threading", _Threading())] if threads else []):
         p = psutil.Process(77)
         k.now = t0
@@ -342,6 +345,8 @@ def proc_percent(ctx, D, ncpu, modes="nnn", threads=False):
                 k.now = k.now + D
                 state["i"] += 1
             _Thread.ident = 1 + (j % 2 if threads else 0)
+            if hotplug and j and j == plug_at:
+                k.sysconf["SC_NPROCESSORS_ONLN"] = new_ncpu
             start = (k.now, state["i"])
             if m == "f":           # a call that fails: the stat record is refused (EACCES) for its duration
                 state["denied"] = True
@@ -365,7 +370,7 @@ def proc_percent(ctx, D, ncpu, modes="nnn", threads=False):
             continue
         wall = end[0] - ref[0]
         dp = (u[end[1]] - u[ref[1]]) + (s[end[1]] - s[ref[1]])
-        tag = "" if modes == "nnn" else "[after-a-failed-call]" if "f" in modes else "[after-blocking-call]" if j and modes[j - 1] == "b" and m == "n" else "[blocking]" if m == "b" else ""
+        tag = "[cpu-count-changed]" if hotplug else "" if modes == "nnn" else "[after-a-failed-call]" if "f" in modes else "[after-blocking-call]" if j and modes[j - 1] == "b" and m == "n" else "[blocking]" if m == "b" else ""
         if wall == 0:
             ctx.prove(ctx.eq(r, 0), "proc-zero-wall-zero")
         elif ctx.symbolic:
